@@ -141,7 +141,8 @@ def run(tier='quick', seed=0, jobs=1):
              f"node) + {3 if tier == 'quick' else 14} random trees, 18 query cells (pure / mixed / noise / all-zero); "
              "pairwise-covering sample of "
              "flatten x drop_level x bootstrap_iteration {1,2,7,20} x n_runners_up {0,1,2,10} x bootstrap_factor "
-             "{0.3,0.6,1.0} x chunk_size {4,n} x n_processors {1,2}")
+             "{0.3,0.6,1.0} x chunk_size {4,n} x n_processors {1,2}; each run's JSON records and the same records read back "
+             "from its HDF5 output")
     row = fx.new_row(ENTRY, 'seeded-random', bound, CLAUSES)
     stats = {}
     try:
@@ -163,6 +164,12 @@ def run(tier='quick', seed=0, jobs=1):
             try:
                 for clause, observed in check_arithmetic(rec, stats):
                     fx.add_failure(row, clause, 'ensures', c01.replay_args(rec), observed)
+                if rec.get('results_hdf5') is not None:
+                    for clause, observed in check_arithmetic(dict(rec, results=rec['results_hdf5'])):
+                        fx.add_failure(row, clause, 'ensures', c01.replay_args(rec), '[HDF5 output] ' + observed)
+                elif rec.get('results_hdf5_error'):
+                    fx.add_failure(row, CL_PROB, 'ensures', c01.replay_args(rec),
+                                   '[HDF5 output] cannot be read back: ' + rec['results_hdf5_error'])
             except Exception:   # noqa
                 fx.add_error(row, traceback.format_exc()[-1500:])
         row['bound'] += f"; level-records seen: {json.dumps(stats, sort_keys=True)}"
